@@ -1,4 +1,5 @@
 """C14 — empty content is dropped by default and kept on request, never the reverse."""
+import common
 import random
 
 import capture
@@ -88,11 +89,11 @@ def run(out, tier, seed, model_ok):
         tags = [H.T(["p"]), H.T(["br"]), H.T(["img"], [["src", "x"]])]
         forests += [(f, "exhaustive-%d" % n) for f in H.forests(n, tags, memo)]
     nex = len(forests)
-    for _ in range(3000 if tier == "quick" else 40000):
+    for _ in range(common.deepen(3000 if tier == "quick" else 40000)):
         forests.append((H.random_forest(rng, max_nodes=rng.choice([4, 10, 30])), "random"))
     log = []
     with capture.html_calls(log):
-        for i in range(250 if tier == "quick" else 3000):
+        for i in range(common.deepen(250 if tier == "quick" else 3000)):
             g, parts, opts = cases.api_case(seed * 1000003 + i, dict(p_empty=0.4, style_map=0.7, p_table=0.1))
             try:
                 D.run_real(D.build_docx(parts), opts, want_doc=False)
